@@ -1010,6 +1010,16 @@ func (fc *FnCtx) appendOne(st *State, s Val, v Val, elem types.Type) Val {
 	return Val{nr, s.Ty}
 }
 
+// hit records that an emit-clause key (or a caller-scoped function-value extern) met a site in the function under
+// contract; a key that meets none means the contract was written for a different body (see staleClauses).
+func (fc *FnCtx) hit(key string) {
+	r := fc.root()
+	if r.clauseHit == nil {
+		r.clauseHit = map[string]bool{}
+	}
+	r.clauseHit[key] = true
+}
+
 // ---------- function values ----------
 
 // atomicCall models methods of sync/atomic boxes as reads/updates of the boxed value (sequentially consistent)
@@ -1078,6 +1088,7 @@ func (fc *FnCtx) evalFuncValueCall(st *State, call *ast.CallExpr, preArgs []Val)
 			for i := range args {
 				scope[fmt.Sprintf("$%d", i)] = args[i]
 			}
+			fc.hit("callpre " + exprText(call.Fun))
 			for i, cl := range r.ct.CallPre[exprText(call.Fun)] {
 				env := &SpecEnv{fc: fc, st: st, old: r.entry, scope: scope, oldScope: fc.paramsEntry, pkg: fc.ctPkg(), useVars: true}
 				v := fc.safeSpec(env, cl.E, cl.Text)
@@ -1095,6 +1106,9 @@ func (fc *FnCtx) evalFuncValueCall(st *State, call *ast.CallExpr, preArgs []Val)
 			rk := fc.root().key
 			_ = rk
 			c, ok := p.cf.Contracts[key+"@"+strings.TrimPrefix(fc.root().key, p.Types.Name()+".")]
+			if ok {
+				fc.hit("extern " + key)
+			}
 			if !ok {
 				c, ok = p.cf.Contracts[key]
 			}
@@ -2283,6 +2297,9 @@ func (fc *FnCtx) checkCallPre(st *State, call *ast.CallExpr, f *types.Func, recv
 	for _, key := range []string{name, fmt.Sprintf("%s.%d", name, ord), funcKey(f.Origin(), nil)} {
 		if inlined && key == fmt.Sprintf("%s.%d", name, ord) {
 			continue
+		}
+		if len(r.ct.CallPre[key]) > 0 {
+			fc.hit("callpre " + key)
 		}
 		for i, cl := range r.ct.CallPre[key] {
 			env := &SpecEnv{fc: fc, st: st, old: r.entry, scope: scope, oldScope: fc.paramsEntry, pkg: fc.ctPkg(), useVars: true}
